@@ -153,11 +153,14 @@ def rule_compare_chain(run):
     rets = [r for r in walk_ordered(l) if isinstance(r, ast.Return)]
     ok = len(rets) == 1 and src(rets[0].value).startswith("out.Value(False")
     g = [x for x in ast.walk(l) if isinstance(x, ast.If) and rets and any(r is rets[0] for r in ast.walk(x))]
-    ok = ok and any(src(x.test) in ("not bool(result)", "not result") for x in g)
+    ok = ok and any(P.T(x.test) == "not bool(result)" or P.T(x.test) == "not result" for x in g)
     run.ob(ok, "apply_impl[ast.Compare]", file=prep.rel, line=l.lineno, detail="constant-false-link", expected="return out.Value(False, ..) as soon as a constant link is false", found="ok" if ok else "changed")
     after = c.body[c.body.index(l) + 1:]
-    t = "\n".join(src(s) for s in after)
-    ok = "if len(single_cmps) == 0:\n    return out.Value(True" in t and "out.All([cmp.result() for cmp in single_cmps], single_cmps)" in t
+    ok = False
+    for _n, b in P.find(after, "out.All([__c.result() for __c in __s], __s)"):
+        for st in after:
+            if isinstance(st, ast.If) and src(st.test) == f"len({b['__s']}) == 0" and isinstance(st.body[0], ast.Return) and src(st.body[0].value).startswith("out.Value(True"):
+                ok = True
     run.ob(ok, "apply_impl[ast.Compare]", file=prep.rel, line=l.lineno, detail="combine", expected="no run-time link -> True; otherwise the conjunction of all run-time links", found="ok" if ok else "changed")
     run.end()
 
@@ -307,8 +310,10 @@ def rule_builtins(run):
     m = run.idx.mod(IDEF)
     for name in ("min", "max"):
         f = m.func(f"{name}_replacement")
-        first = f.node.body[0]
-        ok = isinstance(first, ast.If) and P.T(first.test) == "len(args) == 1" and P.T(first.body[0]) == "args = args[0]" and len(first.body) == 1 and not first.orelse
+        from ..astutil import unconditional_stmt
+        first = unconditional_stmt(f.node, lambda st: isinstance(st, ast.If) and src(st.test) == "len(args) == 1")
+        ok = first is not None and src(first.body[0]) == "args = args[0]" and len(first.body) == 1 and not first.orelse
+        first = first or f.node.body[0]
         run.ob(ok, f"{name}_replacement", file=m.rel, line=f.node.lineno, detail="single-argument-is-iterable", expected="if len(args) == 1: args = args[0]", found=src(first).replace("\n", " ")[:80])
         last = f.node.body[-1]
         ok = isinstance(last, ast.Return) and P.T(last.value) == f"{name}(args)"
